@@ -139,7 +139,59 @@ def run(ctx):
                     pass
                 except BaseException as e:  # noqa
                     rfails.append({"input": text, "rule": rule, "context": cname, "diff": "escaped %s" % type(e).__name__})
+    # class-only specifiers on every kind of declaration outside a class
+    fn_decls = ["int x;", "void f();", "operator int();", "operator bool() const;", "auto g() -> int;", "template <typename T> T h();",
+                "int k() { return 1; }", "bool operator==(const X& a, const X& b);", "X::X();", "void X::m();", "X::operator int();"]
+    for spec in ("virtual", "explicit", "virtual inline", "static virtual", "inline explicit", "friend"):
+        for d in fn_decls:
+            for cname, tmpl in (("global", "%s"), ("namespace", "namespace n {\n%s\n}"), ("extern block", "extern \"C\" {\n%s\n}"),
+                                ("after class", "struct Q { int q; };\n%s"), ("template", "template <typename U>\n%s")):
+                if cname == "template" and d.startswith("template"):
+                    continue
+                nr += 1
+                text = tmpl % (spec + " " + d)
+                try:
+                    parse_string(text)
+                    rfails.append({"input": text, "rule": "specifier not allowed", "context": cname, "diff": "class-only specifier '%s' outside a class was accepted" % spec})
+                except CxxParseError:
+                    pass
+                except BaseException as e:  # noqa
+                    rfails.append({"input": text, "rule": "specifier not allowed", "context": cname, "diff": "escaped %s" % type(e).__name__})
     ctx.oracle("rules_rejected", nr, rfails)
+    # the location an error names when #line directives are in force
+    dfails = []
+    nd = ctx.budget(300, 8000)
+    offenders = ["@", "int $x;", "int y = 08;", "}", "int 5;", "void f(;", "public: int z;", "#define Q 1", "friend class F;"]
+    for _ in range(nd):
+        text = ""
+        cur_file, cur_line = "in.h", 1
+        for sgi in range(rng.randint(0, 3)):
+            for _ in range(rng.randint(0, 2)):
+                fill = rng.choice(["int a;\n", "\n", "/* a\n b */\n", "// c\n"])
+                text += fill
+                cur_line += fill.count("\n")
+            N = rng.randint(1, 500)
+            fn = rng.choice(["other.h", "dir/x.h", "a b.h"])
+            form = rng.choice(['#line %d "%s"\n', '# %d "%s"\n', '#  line %d "%s"\n', '# %d "%s" 1\n'])
+            text += form % (N, fn)
+            cur_file, cur_line = fn, N
+        for _ in range(rng.randint(0, 3)):
+            fill = rng.choice(["int b;\n", "\n", "/* a\n b */\n", "// c\n"])
+            text += fill
+            cur_line += fill.count("\n")
+        off = rng.choice(offenders)
+        text += off + "\nint after;\n"
+        ctx.count(text, nontrivial=text.count("#") >= 2)
+        try:
+            parse_string(text, filename="in.h")
+            dfails.append({"input": text, "diff": "offending line %r was accepted" % off})
+        except CxxParseError as e:
+            want = "%s:%d: parse error" % (cur_file, cur_line)
+            if not e.args[0].startswith(want):
+                dfails.append({"input": text, "diff": "error reported as %r, the offending text is at %s:%d" % (e.args[0][:60], cur_file, cur_line)})
+        except BaseException as e:  # noqa
+            dfails.append({"input": text, "diff": "escaped %s" % type(e).__name__})
+    ctx.oracle("directive_error_location", nd, dfails)
     ctx.sample({"rule": "mismatched bracket", "context": "class", "input": "struct S {\nint x = (1 ];\n};"})
     sub = [t for t in inputs if len(t) < 400][:: max(1, len(inputs) // ctx.budget(1200, 15000))]
     pcommon.parse_corr(ctx, "parse[outcome]", sub, proj=pcommon.proj_outcome)
